@@ -181,7 +181,7 @@ fn vq_c18_stream_decode_total_and_exact() {
 // A cheaper companion (the harness above needs 17-25 min): totality on every input shorter than the shortest valid
 // packet.  All header arithmetic (stream id, packet numbers, relative retransmission offset) happens within the first
 // 34 bytes, so an arithmetic panic on crafted bytes is a safety failure here as well.
-//@ harness props=C18 tier=thorough level=bounded timeout=2400 bound="input <= 40 bytes, contents and length symbolic (no valid packet fits: every input must be rejected without panic)"
+//@ harness props=C18 tier=quick level=bounded timeout=900 bound="input <= 40 bytes, contents and length symbolic (no valid packet fits: every input must be rejected without panic)"
 //@ fn packet::stream::decoder::Packet::decode
 #[kani::proof]
 #[kani::unwind(8)]
